@@ -2,7 +2,7 @@
    admissible advertisement can be encoded (connect's guard is exactly
    sendUpdate's "asn does not fit in 2 octets" error case). *)
 From Coq Require Import List NArith Bool Lia ZifyN ZifyBool.
-From Verif Require Import Model.Wire Model.Session Proofs.WireP.
+From Verif Require Import Model.Wire Model.Session Proofs.WireP Proofs.SessionP.
 Import ListNotations.
 Local Open Scope N_scope.
 
@@ -18,6 +18,35 @@ Proof.
   destruct E as [(_ & -> & Hasn) | [E | E]]; [|lia|congruence].
   apply andb_true_iff in H. destruct H as [_ H]. replace (65535 <? my_asn c) with true in H by lia.
   discriminate.
+Qed.
+
+(* whatever UPDATE a flush writes on an established connection, the peer --
+   parsing AS_PATH with the width IT announced on this connection -- reads
+   exactly the intended route *)
+Theorem established_update_decodes c es w id nh a bs :
+  run c world0 es = Some w -> conn (ws w) = Some id -> up (wp w) = Some id ->
+  wf_uparams (my_asn c) nh a ->
+  enc_update (my_asn c) (ibgp_of c) (emit_width w) nh a = Some bs ->
+  dec_msg (pcap (wp w)) bs = Some (intended_update (my_asn c) (ibgp_of c) nh a).
+Proof.
+  intros Hr Hc Hu Hwf He. rewrite <- (flush_uses_connection_capability c es w id Hr Hc Hu).
+  exact (proj1 (update_roundtrip _ _ _ _ _ _ Hwf He)).
+Qed.
+
+(* why the flag must follow the connection: an eBGP UPDATE encoded for a
+   4-octet peer is not what a 2-octet peer reads (and vice versa) *)
+Lemma wrong_width_misread :
+  exists asn nh a bs, wf_uparams asn nh a /\ enc_update asn false true nh a = Some bs /\
+    dec_msg false bs <> Some (intended_update asn false nh a) /\
+  exists bs', enc_update asn false false nh a = Some bs' /\
+    dec_msg true bs' <> Some (intended_update asn false nh a).
+Proof.
+  exists 64512, [127; 0; 0; 1], {| a_pfx := {| p_ip := [10; 20; 0; 0]; p_len := 24 |}; a_lp := 0; a_comms := [] |}.
+  eexists. split.
+  { split; [cbn; lia|]. split; [split; [reflexivity|]; repeat constructor|].
+    split; [|split; [cbn; lia | constructor]]. split; [reflexivity|]. split; [repeat constructor | cbn; lia]. }
+  split; [reflexivity|]. split; [vm_compute; discriminate|].
+  eexists. split; [reflexivity|]. vm_compute. discriminate.
 Qed.
 
 (* before fix: 588bbc0 the guard was MyASN > 65536 *)
